@@ -194,18 +194,18 @@ Theorem coo_getitem_multi_array_refuted :
 Proof. exact coo_getitem_multi_array_refuted_proof. Qed.
 Print Assumptions coo_getitem_multi_array_refuted.
 
-(* (3') DOK.__getitem__ (Model/DokGetitem.v).  A key that is not made of index sequences only is handed,
-   unchanged, to self.asformat("coo")[key] and the result converted back: for a valid DOK (distinct
-   in-range keys; not 0-d unless empty) and every index the COO theorems cover (basic; one array;
-   several arrays), the result has NumPy's shape, the same fill value, distinct in-range keys, and the
-   dense meaning NumPy prescribes.  Clauses (findings, refuted below): the empty key x[()] and a 0-d
-   DOK (D22), a key made of index sequences only (D24). *)
+(* (3') DOK.__getitem__ (Model/DokGetitem.v, the code after fixes e6d97fc / e0a1c30 / b72190a).  A key that is
+   not a non-empty tuple of index sequences is handed, unchanged, to self.asformat("coo")[key] and the result
+   converted back: for a valid DOK (distinct in-range keys; ANY ndim, 0-d included) and every index the COO
+   theorems cover (basic — the empty key included; one array; several arrays), the result has NumPy's shape, the
+   same fill value, distinct in-range keys, and the dense meaning NumPy prescribes.  (The former clauses
+   D22_dok_empty_key, D22_dok_0d are repaired: they are part of this statement now.) *)
 From Verif Require Import Convert DokGetitem DokGetitemP.
 Theorem dok_getitem_den_partial :
   forall (V : Type) (veqb : V -> V -> bool) (add : V -> V -> V) (kf : nat -> nat)
          (sh : shape) (items : list (idx * V)) (fill : V) (ix : index),
     dok_ok V sh items -> shape_okb sh = true -> no_zero_step ix = true -> coo_ix_ok sh ix ->
-    all_arrays_of ix = None ->
+    fancy_key ix = false ->
     match np_index sh ix with
     | Raise e => dok_getitem V veqb add kf sh items fill ix = Raise e /\ e = IndexError
     | Ok (sh', g) =>
@@ -220,12 +220,14 @@ Theorem dok_getitem_den_partial :
 Proof. exact dok_getitem_den_proof. Qed.
 Print Assumptions dok_getitem_den_partial.
 
-(* _fancy_getitem agrees with NumPy on the keys it handles: one index sequence per axis, one length,
-   every entry in [0, extent) (no negative entries: they are not wrapped — D24) *)
+(* A key made of one integer index sequence per axis, all of one length: _fancy_key (check_index, sanitize_index,
+   posify_index: entries within [-extent, extent), negatives wrap — the former clause D24 is repaired) and
+   _fancy_getitem give NumPy's pointwise result.  Partial: the code still refuses (NotImplementedError) a key of
+   index sequences that does not name every axis — see dok_partial_array_key_refuted. *)
 Theorem dok_fancy_getitem_den_partial :
   forall (V : Type) (veqb : V -> V -> bool) (add : V -> V -> V) (kf : nat -> nat)
          (sh : shape) (items : list (idx * V)) (fill : V) (ls : list (list Z)) (n : nat),
-    dok_ok V sh items -> fancy_ok sh ls n ->
+    dok_ok V sh items -> shape_okb sh = true -> fancy_ok sh ls n ->
     exists g it',
       np_index sh (map IArr ls) = Ok ([Z.of_nat n], g)
       /\ dok_getitem V veqb add kf sh items fill (map IArr ls) = Ok (DArr [Z.of_nat n] it' fill)
@@ -235,23 +237,13 @@ Theorem dok_fancy_getitem_den_partial :
 Proof. exact dok_fancy_getitem_den_proof. Qed.
 Print Assumptions dok_fancy_getitem_den_partial.
 
-Theorem dok_getitem_empty_key_refuted :
-  exists sh (items : list (idx * Z)) fill,
-    dok_ok Z sh items /\ shape_okb sh = true /\ (exists sh' g, np_index sh [] = Ok (sh', g))
-    /\ dok_getitem Z Z.eqb Z.add (fun _ => 0%nat) sh items fill [] = Raise NotImplementedError.
-Proof. exact dok_getitem_empty_key_refuted_proof. Qed.
-Print Assumptions dok_getitem_empty_key_refuted.
-
-Theorem dok_fancy_refuted :
-  exists sh (items : list (idx * Z)) fill (ls : list (list Z)),
-    dok_ok Z sh items /\ shape_okb sh = true
-    /\ match np_index sh (map IArr ls), dok_getitem Z Z.eqb Z.add (fun _ => 0%nat) sh items fill (map IArr ls) with
-       | Ok (sh', g), Ok (DArr sh'' it' f') =>
-         sh'' = sh' /\ den (dok_as_coo sh'' it' f') [0] <> den (dok_as_coo sh items fill) (g [0])
-       | _, _ => False
-       end.
-Proof. exact dok_fancy_refuted_proof. Qed.
-Print Assumptions dok_fancy_refuted.
+Theorem dok_partial_array_key_refuted :
+  exists sh (items : list (idx * Z)) fill ix,
+    dok_ok Z sh items /\ shape_okb sh = true /\ one_array ix = true /\ d29_clause sh ix = true
+    /\ (exists g, np_index sh ix = Ok ([1; 3], g))
+    /\ dok_getitem Z Z.eqb Z.add (fun _ => 0%nat) sh items fill ix = Raise NotImplementedError.
+Proof. exact dok_partial_array_key_refuted_proof. Qed.
+Print Assumptions dok_partial_array_key_refuted.
 
 (* (4') GCXS.__getitem__ = _compressed/indexing.getitem (Model/GcxsGetitem.v: normalisation, the
    full-slice shortcut, get_single_element, the compressed / uncompressed bookkeeping, reordering by
